@@ -38,7 +38,7 @@ CHECKS = {
    note='Trusted: TLC, scen.py. Strip levels beyond the path depth are not exercised (adversarial).',
    technique='TLA+ model of the series grammar and name resolution enumerated by TLC, replayed into the binary'),
  'C17': dict(level='model_checking', design='3/C17',
-   text='Cmd.Resolve defines refusal (applied-patches not a prefix incl. longer/reordered/edited/duplicated, unknown or already applied goal) and MC_Cmd enumerates every (series<=3, applied variant, goal, missing/unparseable patch position) combination; each is a real workspace run with 1 and 2 threads: exit must be 1 (never a crash), stderr non-empty and the recursive snapshot incl. inode and mtime unchanged; otherwise the push result must be the model one.',
+   text='Cmd.Resolve defines refusal (applied-patches not a prefix incl. longer/reordered/edited/duplicated, unknown or already applied goal) and MC_Cmd enumerates every (series<=3, applied variant, goal, missing/unparseable patch position; for -a and a count also a second missing patch file and a patch that does not apply, in every order) combination; each is a real workspace run with 1 and 2 threads: exit must be 1 (never a crash), stderr non-empty and the recursive snapshot incl. inode and mtime unchanged; otherwise the push result must be the model one.',
    note='Trusted: TLC, snapshotter.',
    technique='TLA+ model of the quilt-state checks (Cmd.tla) enumerated exhaustively by TLC, replayed into the binary'),
  'C05': dict(level='model_checking', design='3/C05',
@@ -50,7 +50,7 @@ CHECKS = {
    note='Trusted: TLC, scen.py. Zero-length backup = file did not exist or was empty (quilt conflates them).',
    technique='TLA+ reference model enumerated by TLC, replay into the binary, .pc snapshot + pop simulation compared'),
  'C13': dict(level='model_checking', design='3/C13',
-   text='Reference reject set (failing patch only, files with failed hunks, directory exists) from Outcome.tla for every enumerated scenario; real runs compared on the set of *.rej paths and, with an independent reader of the reject format, on the exact failed hunks in order. Failure reasons covered: no match, missing file, create over existing, delete mismatch, misordered hunks.',
+   text='Reference reject set (failing patch only, files with failed hunks, directory exists) from Outcome.tla for every enumerated scenario; real runs compared on the set of *.rej paths and, with an independent reader of the reject format, on the exact failed hunks in order; failing hunks of 0-257 (thorough 1025) removed x added lines in three line styles and four context shapes are read back side by side and number by number. Failure reasons covered: no match, missing file, create over existing, delete mismatch, misordered hunks.',
    note='Where C13 is silent (directory created by an earlier patch of the same push) the reject is optional in the reference. Duplicate failing entries for one file are outside the scenario universe so far.',
    technique='TLA+ reference model enumerated by TLC, replay into the binary, reject files parsed independently'),
  'C11': dict(level='model_checking', design='3/C11',
@@ -58,11 +58,11 @@ CHECKS = {
    note='Trusted: TLC, the token renderer, the counting allocator. Arbitrary byte strings are only sampled (truncation/mutation). Agreement of accept/reject with the model is reported as a diagnostic.',
    technique='TLA+ token-level parser model enumerated by TLC, replayed into parse_patch (panic/allocation oracle) and the CLI'),
  'C12': dict(level='model_checking', design='3/C12',
-   text='Parse(Write(p)) = p on everything C12 lists and Write is a fixed point: invariant of the PatchText model for every enumerated abstract patch (TLC) and for seeded multi-file-patch compositions (Val_Text); every patch is rendered in 2-4 input dialects and run through the real parse -> write -> parse -> write; the parse result is also compared with the abstract patch (binds the parser model).',
+   text='Parse(Write(p)) = p on everything C12 lists and Write is a fixed point: invariant of the PatchText model for every enumerated abstract patch (TLC; modes incl. a new mode equal to the old one) and for seeded multi-file-patch compositions (Val_Text); every patch is rendered in 2-4 input dialects and run through the real parse -> write -> parse -> write; the parse result is also compared with the abstract patch (binds the parser model).',
    note='Trusted: TLC, toks.py renderer.',
    technique='TLA+ model of parser and writer (PatchText.tla) checked by TLC + replay through the real parser/writer'),
  'C01': dict(level='model_checking', design='3/C01',
-   text='TLC enumerates every edit script within bounds, derives the hunks diff prints for every context width (Diff.tla) and checks on the model that they apply exactly in both directions; every (A,B,c) is rendered in 10 header dialects and several byte spellings and replayed through the real parser+apply in-process (both directions, absent/empty variants), GNU diff output for the same pairs too, and a sample is pushed by the real binary.',
+   text='TLC enumerates every edit script within bounds, derives the hunks diff prints for every context width (Diff.tla) and checks on the model that they apply exactly in both directions; every (A,B,c) is rendered in 12 header dialects (two with doubled separators in the stripped part) and several byte spellings and replayed through the real parser+apply in-process (both directions, absent/empty variants), GNU diff output for the same pairs too, and a sample is pushed by the real binary.',
    note='Trusted: TLC, render.py (cross-checked by GNU diff as second producer). One known finding (context-free hunk at the top of a non-empty file).',
    technique='TLA+ model of diffs (Diff.tla) + TLC enumeration, rendered and replayed into parse_patch + TextFilePatch::apply and the CLI'),
  'C04': dict(level='model_checking', design='3/C04',
